@@ -145,6 +145,18 @@ theorem c19_cached {R Re : Type} (env : Env R Re) (s : State R Re) (q : Query) (
     (hm : env.mtch r (env.reqOf q) = true) : r ∈ (runQuery env s q).2.answer.1 :=
   runQuery_cached q hs hq hin hcand hw hm
 
+/-- …and the host rules: if `(idx, r)` is in the cache when a DNS query starts, `idx` is in the hosts-table bucket
+    of the name, `r` is a host rule naming it, and the (possibly degraded) network rules of the answer leave the
+    decision to the hosts table (`GetDNSBasicRule` finds nothing), then `r` is among the returned host rules --
+    whatever lists are closed: an unreadable entry of the bucket is SKIPPED, the scan does not stop at it. -/
+theorem c19_cached_host {R Re : Type} (env : Env R Re) (s : State R Re) (d : DReq) (idx : Idx) (r : R)
+    (hs : SInv env s) (hq : d.hostname.isEmpty = false) (hin : (idx, r) ∈ s.cache)
+    (hcand : idx ∈ env.hcands (env.reqOf (.dns d))) (hw : env.wants .host r = true)
+    (hm : env.pre r (env.reqOf (.dns d)) = true)
+    (hb : env.basic (runQuery env s (.dns d)).2.answer.1 = false) :
+    r ∈ (runQuery env s (.dns d)).2.answer.2 :=
+  runQuery_cached_host d hs hq hin hcand hw hm hb
+
 /-- The cache survives faults and later queries: an entry present before any suffix of a history
     (queries and `close` events) is still found afterwards; together with `c19_cached` (applied at the
     state before query i) this is "rules retrieved before k are still returned". -/
